@@ -198,7 +198,12 @@ def body(ctx, desc, x):
                     return "add_tree:position"
     except Exception as e:  # noqa: BLE001
         if other is not None and _collides(x, desc, keys, ids, target, op, nodes):
-            return ""  # legitimately refused: target already holds that data_id
+            # legitimately refused (target already holds that data_id): the
+            # source must still be exactly as it was
+            c = B.obs_equal(B.observe(src, nodes), obs0)
+            if c:
+                return "source-changed-by-refused-copy:" + c
+            return ""
         return "copy:raised:%s" % type(e).__name__
     ctx.mark()
     deep = x.get("deep", True) if op != "node_copy" and op != "tree_copy" else True
